@@ -55,7 +55,7 @@ func stringLen(tier string, spec mrun.Spec) (alpha, maxLen int) {
 }
 
 func scenarios(tier string, yield func(any) bool) {
-	for _, sp := range mrun.Specs() {
+	for _, sp := range append(mrun.Specs(), mrun.HandlerSpecs()...) {
 		if sp.Module == "quic" && tier == "quick" && sp.UDP == false {
 			continue
 		}
@@ -77,7 +77,24 @@ func scenarios(tier string, yield func(any) bool) {
 	}
 }
 
+// load provisions the matcher or parsing handler of a scenario.
+func load(sp mrun.Spec) (*mrun.Loaded, *mrun.LoadedHandler, func(), error) {
+	if mrun.IsHandler(sp) {
+		h, err := mrun.LoadHandler(sp)
+		if err != nil {
+			return nil, nil, nil, err
+		}
+		return &mrun.Loaded{Spec: sp}, h, h.Close, nil
+	}
+	l, err := mrun.Load(sp)
+	if err != nil {
+		return nil, nil, nil, err
+	}
+	return l, nil, l.Close, nil
+}
+
 type tester struct {
+	h     *mrun.LoadedHandler // set for handler scenarios (then l only carries the spec)
 	l     *mrun.Loaded
 	rep   *runner.Report
 	sc    *Scn
@@ -122,8 +139,13 @@ func (t *tester) one(in []byte, measure bool) {
 	if measure {
 		runtime.ReadMemStats(&before)
 	}
-	cx, _ := mrun.Conn(in, t.l.Spec.UDP)
-	v := t.l.Eval(cx)
+	var v mrun.Verdict
+	if t.h != nil {
+		v = t.h.Eval(in)
+	} else {
+		cx, _ := mrun.Conn(in, t.l.Spec.UDP)
+		v = t.l.Eval(cx)
+	}
 	t.rep.Executions++
 	t.rep.Transitions++
 	t.rep.Count("verdict:"+v.V, 1)
@@ -175,20 +197,24 @@ func (t *tester) add(in []byte) {
 
 func run(tier string, scAny any, rep *runner.Report) {
 	sc := scAny.(*Scn)
-	l, err := mrun.Load(sc.Spec)
+	l, h, closeFn, err := load(sc.Spec)
 	if err != nil {
 		rep.Note(fmt.Sprintf("matcher %s does not load: %v", sc.Spec, err))
 		rep.Incident("MATCHER-LOAD-FAILED")
 		return
 	}
-	defer l.Close()
+	defer closeFn()
 	rep.Scenarios++
 	t0, n0 := time.Now(), rep.Executions
-	t := &tester{l: l, rep: rep, sc: sc}
+	t := &tester{l: l, h: h, rep: rep, sc: sc}
 	{
 		var a, b runtime.MemStats
 		runtime.ReadMemStats(&a)
 		for i := 0; i < 64; i++ {
+			if h != nil {
+				h.Eval(nil)
+				continue
+			}
 			cx, _ := mrun.Conn(nil, sc.Spec.UDP)
 			l.Eval(cx)
 		}
@@ -267,7 +293,7 @@ func main() {
 	runner.Main(&runner.Harness{
 		ID:    "C04",
 		Level: "model_checking",
-		Rule:  "for every shipped matcher configuration (default + filtered, TCP- and UDP-like addresses): every byte string of length <=5 (6 thorough) over a per-matcher alphabet (generic boundary bytes + the literals of the matcher's own source), plus for every byte-slice/string literal of the module's own tests: every prefix, trailing extensions and every single-position substitution (alphabet, +-1, bit flips); each input is loaded by the real prefetch and judged by the real Match under freeze/unfreeze; oracle: no panic, allocation per call <= 64 x MaxMatchingBytes (measured with runtime.MemStats.TotalAlloc, single-threaded worker)",
+		Rule:  "for every shipped matcher configuration (default + filtered, TCP- and UDP-like addresses) and for the proxy_protocol HANDLER (default and with allow lists; a v1/v2 header grid over every command x family/transport incl. LOCAL and UNSPEC, TLVs, self-consistent lengths, as additional corpus): every byte string of length <=5 (6 thorough) over a per-matcher alphabet (generic boundary bytes + the literals of the matcher's own source), plus for every byte-slice/string literal of the module's own tests: every prefix, trailing extensions and every single-position substitution (alphabet, +-1, bit flips); each input is loaded by the real prefetch and judged by the real Match under freeze/unfreeze; oracle: no panic, allocation per call <= 64 x MaxMatchingBytes (measured with runtime.MemStats.TotalAlloc, single-threaded worker)",
 		Assumptions: []string{
 			"inputs outside the enumerated alphabets/mutation sets are not covered",
 			"allocation is measured per batch of 256 calls against limit + 256 x (baseline of an empty evaluation + 1 KiB) and re-measured per call when a batch exceeds the per-call limit (calls are deterministic)",
@@ -284,14 +310,14 @@ func main() {
 		},
 		Replay: func(scAny any, _ []int) []explore.Failure {
 			sc := scAny.(*Scn)
-			l, err := mrun.Load(sc.Spec)
+			l, h, closeFn, err := load(sc.Spec)
 			if err != nil {
 				return nil
 			}
-			defer l.Close()
+			defer closeFn()
 			in, _ := hex.DecodeString(sc.Input)
 			rep := runner.NewReport()
-			t := &tester{l: l, rep: rep, sc: sc}
+			t := &tester{l: l, h: h, rep: rep, sc: sc}
 			t.one(in, true)
 			var out []explore.Failure
 			for _, f := range rep.Failures {
@@ -301,13 +327,13 @@ func main() {
 		},
 		ReplayH: func(hist []runner.HistItem, scAny any, _ []int) []explore.Failure {
 			sc := scAny.(*Scn)
-			l, err := mrun.Load(sc.Spec)
+			l, h, closeFn, err := load(sc.Spec)
 			if err != nil {
 				return nil
 			}
-			defer l.Close()
+			defer closeFn()
 			rep := runner.NewReport()
-			t := &tester{l: l, rep: rep, sc: sc}
+			t := &tester{l: l, h: h, rep: rep, sc: sc}
 			for _, it := range hist {
 				hs := &Scn{}
 				json.Unmarshal(it.Scenario, hs)
